@@ -234,27 +234,54 @@ impl Engine for StreamRead {
         // (3) every returned frame is a written one, in order
         let mut next = 0usize;
         let mut matched = 0usize;
+        let mut in_order = true;
         for f in &oks {
             match (next..want.len()).find(|j| want[*j] == **f) {
                 Some(j) => {
                     next = j + 1;
                     matched += 1;
                 }
-                None => {
-                    // a frame the format itself defines somewhere in the byte stream (checksum coincidence)?
-                    let coincidence = (0..b.bytes.len()).any(|off| {
-                        b.bytes[off] == 0xFF
-                            && !b.offsets.contains(&off)
-                            && matches!(refdec::decode_frame(&b.bytes, off, None, &Cfg::LENIENT), Ok((fi, ch)) if interleave(&ch) == f.0 && fi.rate == f.1)
-                    });
-                    if coincidence {
-                        out.label("coincidental-checksum-valid-frame");
-                    } else if want.iter().any(|w| w == *f) {
-                        out.fail("frame-out-of-order-or-repeated", format!("a written frame was returned out of order or twice ({} ok, {} err results)", oks.len(), errs));
-                    } else {
-                        out.fail("fabricated-frame", format!("a returned frame ({} samples, {} Hz, {} ch, {} bit) matches no written frame", f.0.len(), f.1, f.2, f.3));
+                None => in_order = false,
+            }
+        }
+        if !in_order {
+            // Not simply a subsequence of the written frames. Garbage that contains sync patterns
+            // (e.g. a truncated copy of a frame) can combine with the bytes that follow it into a frame
+            // the format itself defines; the reader is right to return it, at the price of the written
+            // frame whose first bytes it used. So judge against every checksum-valid frame the
+            // independent parser finds at any offset of the byte stream, in offset order.
+            let mut defined: Vec<Got> = vec![];
+            for off in 0..b.bytes.len() {
+                if b.bytes[off] == 0xFF {
+                    if let Ok((fi, ch)) = refdec::decode_frame(&b.bytes, off, None, &Cfg::LENIENT) {
+                        defined.push((interleave(&ch), fi.rate, ch.len() as u8, fi.bps as u32));
                     }
                 }
+            }
+            let mut k = 0usize;
+            let mut explained = true;
+            matched = 0;
+            for f in &oks {
+                match (k..defined.len()).find(|j| defined[*j].0 == f.0 && defined[*j].1 == f.1) {
+                    Some(j) => {
+                        k = j + 1;
+                        if want.iter().any(|w| w == *f) {
+                            matched += 1;
+                        }
+                    }
+                    None => {
+                        explained = false;
+                        if want.iter().any(|w| w == *f) {
+                            out.fail("frame-out-of-order-or-repeated", format!("a written frame was returned out of order or twice ({} ok, {} err results)", oks.len(), errs));
+                        } else {
+                            out.fail("fabricated-frame", format!("a returned frame ({} samples, {} Hz, {} ch, {} bit) matches no frame the byte stream defines", f.0.len(), f.1, f.2, f.3));
+                        }
+                        break;
+                    }
+                }
+            }
+            if explained {
+                out.label("coincidental-checksum-valid-frame");
             }
         }
         // (2)/(4) without sync-like garbage nothing may be lost and nothing may fail
